@@ -184,6 +184,17 @@ pub fn run(out: &mut Out, tier: &str, seed: u64) {
             full_entries(out, s.as_bytes());
         }
     }
+    // malformed content at and beyond the nesting limits: too deep or malformed, never accepted
+    for d in [lim - 2, lim - 1, lim, lim + 1, lim + 2, slim - 1, slim, slim + 1, 300] {
+        for payload in ["[1 2]", "[}", "{1:2}", "[1,]", "{\"a\" 1}", "[\"\\q\"]", "[tru]", "{\"a\":1,}", "[01]"] {
+            for (open, close) in [("[", "]"), ("{\"k\":", "}")] {
+                let s = format!("{}{}{}", open.repeat(d), payload, close.repeat(d));
+                out.count("stream:deep-malformed");
+                skip_entries(out, s.as_bytes());
+                full_entries(out, s.as_bytes());
+            }
+        }
+    }
     // exhaustive token sequences up to a bound
     let maxlen = if thorough { 5 } else { 3 };
     let nt = TOKENS.len();
